@@ -29,7 +29,8 @@ RULE = (
     "PeerPierceFirewall with an unknown ticket, write failure or blocked write (10 s write timeout) under 1..2 "
     "concurrent send_message calls, connect refused, connect timeout; message traffic from the peer and from the "
     "library before and after the ending; optionally a server EOF/reset with auto-reconnect; optionally "
-    "state-change listeners that take 1..2 loop iterations (the event bus supports coroutine listeners). ENUMERATED "
+    "state-change listeners that take 1..2 loop iterations and/or a listener that takes 0..4 more iterations or 1..5 "
+    "ms on one state of peer connections, mostly CONNECTED (the event bus supports coroutine listeners). ENUMERATED "
     "fault positions: for every base shape (direction x mode x api x direct/indirect outcome x type/port, plus "
     "slow-listener shapes) every loop iteration j = 0..J+1 of the attempt (J measured on the fault-free run; "
     "iterations are counted by a hook on the loop so that virtual time still advances, i.e. every await of the "
@@ -45,7 +46,8 @@ RULE = (
     "set(network.peer_connections) == {connections last reported CONNECTED} + "
     "{connections last reported CONNECTING whose connect() is still executing in a live task}, no registered "
     "connection is an orphan (CONNECTED, never initialised, owned by no live task), every library-side socket still "
-    "open belongs to a registered CONNECTED connection; at B every connection that was ever reported has CLOSED "
+    "open belongs to a registered CONNECTED connection; a connection last reported CLOSED has no open socket, its "
+    "remote endpoint has seen EOF/RST one virtual second after the report, and send_data() on it raises; at B every connection that was ever reported has CLOSED "
     "exactly once, as the last report; the server connection alone may restart with CONNECTING after CLOSED. "
     "Non-trivial = a connection ended before CONNECTED / before its init message, or a fault position was hit while "
     "the attempt was running, or two endings overlapped (two disconnect calls, disconnect in the iteration of an "
@@ -87,6 +89,8 @@ ADVS = ['one', 'both']
 # which advertised port carries a value that does not fit in 16 bits (the wire field is a uint32)
 OOBS = ['none', 'primary', 'alt', 'both']
 OOB_PORTS = [70000, 65536, 4294967295]
+# a listener that is slower for one state of peer connections: extra loop iterations and/or virtual milliseconds
+SLOW_STATES = ['CONNECTED', 'CONNECTING', 'CLOSING', 'CLOSED']
 E_OFFSET = 1.00237
 A_SETTLE = 15.0037
 B_SETTLE = 200.0
@@ -148,6 +152,9 @@ def case_strategy(draw):
         'fault': fault,
         'server': server,
         'listener_yield': draw(st.sampled_from([0, 0, 0, 1, 2])),
+        'slow': draw(st.none() | st.fixed_dictionaries({
+            'state': st.sampled_from(['CONNECTED', 'CONNECTED'] + SLOW_STATES),
+            'iters': st.integers(0, 4), 'ms': st.sampled_from([0, 0, 1, 3, 5])})),
         'teardown_at_a': draw(st.booleans()),
     }
 
@@ -207,6 +214,26 @@ def base_shapes(tier):
             dir='ctp', typ='P', obf=obf, api='create', adv='one', oob='primary', oob_port=oob_port, direct='accept',
             direct_alt='accept', indirect='silent', direct_delay=2, indirect_delay=3)],
             'server': None, 'listener_yield': 0, 'teardown_at_a': False})
+    # a listener that is slow on the CONNECTED report of peer connections: connect() is suspended between the moment
+    # the state is CONNECTED and its return (disconnect / shutdown / cancellation land inside that window)
+    for mode in ('race', 'fallback'):
+        for api in ('create', 'create_addr'):
+            for indirect in ('cannot', 'pierce'):
+                for iters, ms in ((4, 0), (0, 3)):
+                    shapes.append({'mode': mode, 'conns': [_base_conn(
+                        dir='out', api=api, direct='accept', indirect=indirect, direct_delay=2, indirect_delay=6)],
+                        'server': None, 'listener_yield': 0, 'teardown_at_a': False,
+                        'slow': {'state': 'CONNECTED', 'iters': iters, 'ms': ms}})
+    for iters, ms in ((4, 0), (0, 3)):
+        shapes.append({'mode': 'race', 'conns': [_base_conn(
+            dir='ctp', api='create', direct='accept', indirect='silent', direct_delay=2, indirect_delay=3)],
+            'server': None, 'listener_yield': 0, 'teardown_at_a': False,
+            'slow': {'state': 'CONNECTED', 'iters': iters, 'ms': ms}})
+    for iters, ms in ((4, 0), (0, 3)):
+        for typ, obf in (('P', False), ('D', True)):
+            shapes.append({'mode': 'race', 'conns': [_base_conn(dir='in', typ=typ, obf=obf, init='ok', init_at=1)],
+                           'server': None, 'listener_yield': 0, 'teardown_at_a': False,
+                           'slow': {'state': 'CONNECTED', 'iters': iters, 'ms': ms}})
     # a slow state listener turns every state report into a suspension point of the attempt
     for mode in ('race', 'fallback'):
         for direct, indirect in (('accept', 'pierce'), ('refuse', 'pierce'), ('accept-failwrite', 'cannot'),
@@ -317,6 +344,8 @@ def _sanitise(case):
         'fault': fault,
         'server': server,
         'listener_yield': _int(case.get('listener_yield'), 0, 2),
+        'slow': ({'state': _pick(case['slow'].get('state'), SLOW_STATES), 'iters': _int(case['slow'].get('iters'), 0, 6),
+                  'ms': _int(case['slow'].get('ms'), 0, 20)} if isinstance(case.get('slow'), dict) else None),
         'teardown_at_a': bool(case.get('teardown_at_a')),
     }
 
@@ -378,6 +407,9 @@ class _Rec:
         self.written_at_closed = None
         self.send_after_closed = None
         self.cancelled_in_listener = []
+        self.send_data_after_closed = None
+        self.reporting = []                 # states whose (slow) listener invocation is suspended right now
+        self.closed_during_connected_report = False
 
 
 def run_case(case) -> CaseResult:
@@ -430,6 +462,7 @@ def _execute(case):
         network = Network(settings, bus)
         world.clients.append(types.SimpleNamespace(settings=settings))
         ly = c['listener_yield']
+        slow = c['slow']
 
         async def on_state(event):
             r = rec_of(event.connection)
@@ -441,13 +474,23 @@ def _execute(case):
                     r.tr = w.transport
                 if event.state == ConnectionState.CLOSED and r.written_at_closed is None and r.tr is not None:
                     r.written_at_closed = r.tr.bytes_written
+            if event.state == ConnectionState.CLOSING and 'CONNECTED' in r.reporting:
+                r.closed_during_connected_report = True
+            r.reporting.append(event.state.name)
             try:
                 for _ in range(ly):
                     await asyncio.sleep(0)
+                if slow is not None and slow['state'] == event.state.name and isinstance(conn, PeerConnection):
+                    for _ in range(slow['iters']):
+                        await asyncio.sleep(0)
+                    if slow['ms']:
+                        await asyncio.sleep(slow['ms'] / 1000.0)
             except asyncio.CancelledError:
                 # the task that reports the state was cancelled while this (slow) listener was suspended
                 r.cancelled_in_listener.append(event.state.name)
                 raise
+            finally:
+                r.reporting.remove(event.state.name)
 
         async def on_msg(event):
             r = rec_of(event.connection)
@@ -851,9 +894,26 @@ def _execute(case):
                         continue
                     owner = next((k for k, r in recs.items() if r.tr is side), None)
                     open_unowned.append((repr(side._extra.get('peername')), owner))
+            closed_open, remote_unaware = [], []
+            for k, r in recs.items():
+                if not isinstance(r.obj, PeerConnection) or not r.states:
+                    continue
+                w = r.obj._writer
+                if w is not None:
+                    r.tr = w.transport       # also streams installed without any state report
+                if r.states[-1][0] != 'CLOSED' or r.tr is None:
+                    continue
+                if not r.tr.dead:
+                    closed_open.append(k)
+                remote = r.tr._link.sides[1 - r.tr._index]
+                if loop.time() - r.states[-1][2] >= 1.0 and isinstance(remote, simnet.Endpoint) and \
+                        not (remote.closed or remote.got_eof or remote.got_reset):
+                    remote_unaware.append(k)
             notes['checkpoints'].append({
                 'label': label,
                 'time': round(loop.time() - t0, 4),
+                'closed_open': closed_open,
+                'remote_unaware': remote_unaware,
                 'registry': [id(cn) for cn in reg],
                 'connecting_live': live,
                 'nstates': {k: len(r.states) for k, r in recs.items()},
@@ -876,11 +936,23 @@ def _execute(case):
         snapshot('B')
         # explicit send after CLOSED
         for r in list(order):
-            if isinstance(r.obj, PeerConnection) and r.states and r.states[-1][0] == 'CLOSED' and r.tr is not None:
-                before = r.tr.bytes_written
+            if isinstance(r.obj, PeerConnection) and r.states and r.states[-1][0] == 'CLOSED':
+                tr = r.tr
+                if tr is None and r.obj._writer is not None:
+                    tr = r.tr = r.obj._writer.transport
+                before = tr.bytes_written if tr is not None else 0
                 await guarded_send(r.obj, traffic_msg('P' if r.obj.connection_type == 'P' else 'D', 99))
+                # send_data has no "is closing" short cut: on a closed connection it has to fail
+                try:
+                    await r.obj.send_data(b'sent-after-closed')
+                    r.send_data_after_closed = 'returned'
+                except ConnectionWriteError:
+                    r.send_data_after_closed = 'raised'
+                except Exception as exc:
+                    r.send_data_after_closed = 'raised'
+                    notes['exceptions'].append(('send_data', type(exc).__name__, repr(exc)))
                 await asyncio.sleep(0.0101)
-                r.send_after_closed = r.tr.bytes_written - before
+                r.send_after_closed = (tr.bytes_written - before) if tr is not None else 0
         await guarded_netdc()
         await asyncio.sleep(1.0009)
         snapshot('final')
@@ -996,6 +1068,13 @@ def _execute(case):
             if last is None:
                 once(k, 'C10/registry-residue:never-reported',
                             f'{where}: {desc(r)} is registered but no state was ever reported ({ctx_txt})')
+            elif last == 'CLOSED' and direction(r) == 'incoming' and r.closed_during_connected_report:
+                explained.add(k)
+                once(k, 'C10/registry-residue:closed-connection:accepted-closed-during-connected-report',
+                     f'{where}: {desc(r)} reported {sq}: disconnect() was called on the accepted connection (taken from '
+                     f'the event) while a suspending listener still handled its CONNECTED report; accept() then went on '
+                     f'and registered the closed connection in network.peer_connections, where it stays; {stays(k)} '
+                     f'({ctx_txt})')
             elif last == 'CLOSED':
                 once(k, 'C10/registry-residue:closed-connection', f'{where}: {desc(r)} reported {sq} ({ctx_txt})')
             elif last == 'CONNECTING' and k not in cp['connecting_live']:
@@ -1024,6 +1103,15 @@ def _execute(case):
                             f'{where}: {desc(r)} reported {sq} but is not in network.peer_connections ({ctx_txt})')
             elif last == 'CONNECTING' and k in cp['connecting_live']:
                 once(k, 'C10/registry-missing:CONNECTING', f'{where}: {desc(r)} ({ctx_txt})')
+        for k in cp['closed_open']:
+            if k not in contaminated and k not in explained:
+                once(k, f'C10/closed-but-socket-open:{direction(recs[k])}',
+                     f'{where}: {desc(recs[k])} reported {seq_at(k)} but its socket is still open ({ctx_txt})')
+        for k in cp['remote_unaware']:
+            if k not in contaminated and k not in explained:
+                once(k, f'C10/remote-never-sees-close:{direction(recs[k])}',
+                     f'{where}: {desc(recs[k])} reported {seq_at(k)} (CLOSED more than 1 s ago) but the remote '
+                     f'endpoint has seen neither EOF nor a reset ({ctx_txt})')
         unowned = [name for name, owner in cp['open_unowned'] if owner not in contaminated and owner not in explained]
         if unowned:
             res.violate('C10/open-socket-not-registered',
@@ -1031,6 +1119,14 @@ def _execute(case):
                         f'connection: {unowned} ({ctx_txt})')
         if label == 'final' and [k for k in reg if k not in contaminated and k not in explained]:
             res.violate('C10/registry-not-empty-after-network-disconnect', f'{[desc(recs[k]) for k in reg]}')
+
+    for r in order:
+        if isinstance(r.obj, PeerConnection) and r.send_data_after_closed == 'returned' \
+                and id(r.obj) not in contaminated and id(r.obj) not in explained:
+            res.violate(f'C10/send-succeeded-after-closed:send_data:{direction(r)}',
+                        f'{desc(r)} reported {[s[0] for s in r.states]}; send_data() on it afterwards returned normally '
+                        f'({r.send_after_closed} bytes written to the socket) instead of raising ConnectionWriteError '
+                        f'({ctx_txt})')
 
     # 2b. Network.disconnect() "disconnects all current open connections" (its docstring)
     cp_a = next((cp for cp in notes['checkpoints'] if cp['label'] == 'A'), None)
@@ -1144,6 +1240,11 @@ MANIFEST_ENTRY = {
 
 # One deterministic case per genuine-defect kind found on the pinned tree (regression replays once fixed).
 KNOWN_REPLAYS = {
+    # disconnect() on an accepted connection (object taken from the event) while a suspending listener still handles
+    # its CONNECTED report: accept() goes on and registers the closed connection
+    'C10/registry-residue:closed-connection:accepted-closed-during-connected-report': {
+        'mode': 'race', 'conns': [{'dir': 'in', 'typ': 'P', 'init': 'ok', 'init_at': 1, 'ending': 'none'}],
+        'fault': {'conn': 0, 'kind': 'disconnect', 'j': 1}, 'slow': {'state': 'CONNECTED', 'iters': 0, 'ms': 3}},
     # default (race) mode: the indirect path wins while the direct attempt still hangs in connect(); the library cancels
     # the direct task, its connection object was reported CONNECTING and stays registered for ever
     'C10/registry-residue:cancelled-connect': {
